@@ -81,7 +81,7 @@ func Recover(prop string, spec lib.FileSpec, bin []byte, t *seam.Tape) (*Recover
 	var slots []slot
 	for ri, r := range spec.Recips {
 		if r.Grease != nil {
-			want := (&world.GreaseRecipient{N: r.Grease.N, BodyLen: r.Grease.Body, Tag: r.Grease.Tag, ArgLen: r.Grease.Arg}).Stanzas()
+			want := r.Grease.Recipient().Stanzas()
 			for _, w := range want {
 				if si >= len(h.Stanzas) {
 					return nil, core.Fail(prop+".stanza_count", "header has %d stanzas, fewer than the recipients produced", len(h.Stanzas))
